@@ -32,7 +32,7 @@ fn model_of(code: usize, n: usize) -> (PartialModel, Vec<Option<bool>>) {
         });
         c /= 3;
     }
-    (PartialModel::from_assignments(&a), a)
+    (crate::props::wparams::build_model(&a, code), a)
 }
 
 #[derive(Default)]
